@@ -111,7 +111,8 @@ def build_jobs(ctx, rng):
         dtA = dts[si % len(dts)]
         dtB = dts[(si + 2) % len(dts)]
         for f in FUNCS_STENCIL:
-            p = {"az": rng.choice([225, 0, 90, 315]), "alt": rng.choice([25, 45, 80])} if f == "hillshade" else {}
+            # never the default azimuth/altitude: a parameter dropped on one backend must show
+            p = {"az": rng.choice([0, 90, 135, 315]), "alt": rng.choice([10, 45, 80])} if f == "hillshade" else {}
             add(f, f, p, H, W, "float64" if si == 0 else dtA, "floatinf", geo=rng.choice(["res", "coords", "unit"]))
             if not quick:
                 add(f, f, p, H, W, dtB, "float", geo="coords")
